@@ -569,7 +569,24 @@ func ruleCapacity(c *Ctx) {
 		}
 		r.Check(ok, "R1.6", "Writer.bw length", c.Pos(ini.Pos()), detail+" ≥ 280", detail+" is smaller than the largest frame (280 bytes: signed v2 frame with a 255-byte payload would be truncated or panic)")
 	}
-	if w := c.Fn("pkg/frame", "Writer.writeFrameInner"); w != nil {
+	// emit sites: the methods of frame.Writer that hand bytes to the transport (writeFrameInner on the reference
+	// tree; its callers if it has been inlined). Each must marshal once and write once.
+	var sites []*ssa.Function
+	for _, fn := range c.AllFns {
+		if fn.Pkg == nil || !strings.HasSuffix(fn.Pkg.Pkg.Path(), "pkg/frame") || !strings.HasPrefix(fnLocalName(fn), "Writer.") {
+			continue
+		}
+		if len(callsIn(fn, func(n string, cc *ssa.CallCommon) bool {
+			return cc.IsInvoke() && cc.Method.Name() == "Write" && ex(cc.Value) == "recv.ByteWriter"
+		})) > 0 {
+			sites = append(sites, fn)
+		}
+	}
+	if len(sites) == 0 {
+		r.Fail("R1.6", "Writer emit sites", "-", "no method of frame.Writer writes to its ByteWriter")
+	}
+	for _, w := range sites {
+		r.Functions[fnQual(w)] = true
 		writes := callsIn(w, func(n string, cc *ssa.CallCommon) bool { return cc.IsInvoke() && cc.Method.Name() == "Write" })
 		ms := callsIn(w, func(n string, cc *ssa.CallCommon) bool { return cc.IsInvoke() && cc.Method.Name() == "marshalTo" })
 		ok := len(writes) == 1 && len(ms) == 1
@@ -589,6 +606,10 @@ func ruleCapacity(c *Ctx) {
 				ok = false
 				why = "marshalTo does not fill recv.bw"
 			}
+			if ex(m.Call.Value) != "arg0" {
+				ok = false
+				why = "the frame marshalled is not the frame handed in: " + ex(m.Call.Value)
+			}
 			if p := ex(m.Call.Args[1]); p != "(frame.Frame).GetMessage(arg0).(*message.MessageRaw).Payload" {
 				ok = false
 				why = "payload handed to marshalTo is " + p
@@ -601,8 +622,16 @@ func ruleCapacity(c *Ctx) {
 				ok = false
 				why = "transport write inside a loop"
 			}
+			if !instrDominates(m, writes[0]) {
+				ok = false
+				why = "the transport write is not preceded by marshalTo on every path"
+			}
 		}
-		r.Check(ok, "R1.6", "Writer.writeFrameInner single write", c.Pos(w.Pos()), "one ByteWriter.Write(bw[:n]) per frame", why)
+		key := "Writer.writeFrameInner single write"
+		if fnLocalName(w) != "Writer.writeFrameInner" {
+			key = fnLocalName(w) + " single write (in line)"
+		}
+		r.Check(ok, "R1.6", key, c.Pos(w.Pos()), "one ByteWriter.Write(bw[:n]) per frame", why)
 	}
 	maxPeek := int64(0)
 	nPeek := 0
